@@ -17,7 +17,8 @@
          rec := (column_line line valid)
          reply := ((outcome (chunk ...) held) ...)   writes so far after each call
    | (3 cap n)                 Sorter(cap).add n times
-         reply := ((outcome in_memory (chunk_size ...)) ...) *)
+         reply := ((outcome in_memory (chunk_size ...)) ...)
+   | (4 (case ...))            batch: the list of the replies *)
 From MafVerif Require Import lib.Base lib.Str model.Overlap model.OverlapStream.
 
 Definition dec_rec (s : sexp) : option orec :=
@@ -133,7 +134,7 @@ Fixpoint drive_sorter (n : nat) (i : Z) (s : sorter Z) : list sexp :=
        s_of_list (fun ch => s_of_nat (length ch)) (chunks s')] :: drive_sorter n' (i + 1) s'
   end.
 
-Definition dispatch (s : sexp) : sexp :=
+Definition dispatch1 (s : sexp) : sexp :=
   match s with
   | L [A 0; A kind; A ot; A bb; ctg; xss; A calls] =>
     match as_listof as_str ctg, as_listof (as_listof dec_rec) xss with
@@ -152,4 +153,11 @@ Definition dispatch (s : sexp) : sexp :=
     end
   | L [A 3; A m; A n] => L (drive_sorter (Z.to_nat n) 0 (sorter_new (Z.to_nat m)))
   | _ => s_bad
+  end.
+
+(* (4 (case ...)) : a batch of cases, one reply each *)
+Definition dispatch (s : sexp) : sexp :=
+  match s with
+  | L [A 4; L cs] => L (map dispatch1 cs)
+  | _ => dispatch1 s
   end.
